@@ -140,6 +140,8 @@ def consumer_inplace_sites(ctx, module, func):
     fi = ctx.fn(repo.func(module, func))
     readers = [t.id for t, v, st in stores(fi.node) if isinstance(t, ast.Name) and isinstance(v, ast.Call) and is_call_to(v, 'FitInfoFile')]
     out = []
+    from ..rules import state_keys
+    array_attrs = set(state_keys(repo, repo.cls('fit_info', 'FitInfo')) or ()) - {'source'}          # the per-fit arrays of a record
     for lp in [n for n in walk_local(fi.node) if isinstance(n, ast.For) and isinstance(n.iter, ast.Name) and n.iter.id in readers and isinstance(n.target, ast.Name)]:
         x = lp.target.id
 
@@ -176,6 +178,8 @@ def consumer_inplace_sites(ctx, module, func):
                     expr_sites(st.value, aliases)
                     if is_view_of_record(st.target, aliases) and not isinstance(st.target, ast.Attribute):
                         out.append((st, up(st)))
+                    elif isinstance(st.target, ast.Attribute) and isinstance(st.target.value, ast.Name) and st.target.value.id == x and st.target.attr in array_attrs:
+                        out.append((st, up(st)))          # record.array += v: numpy adds in place, into the array the caller's result shares
                 elif isinstance(st, ast.If):
                     expr_sites(st.test, aliases)
                     a1, a2 = set(aliases), set(aliases)
